@@ -36,7 +36,7 @@ def requirements(tier):
     return {"jseen_checked": 200, "slice_bitwise_checked": 400, "raw_end_to_end_checked": 50, "order_variant_checked": 100,
             "w_reuse": 50, "w_zero_block": 20, "w_equal_sized_inputs": 20, "w_multi_tensor": 50, "w_0d_leaf": 10,
             "w_pre_existing_grad": 50, "w_col_order_differs_from_listing": 5, "w_col_order_equals_listing": 5,
-            "w_float32": 20, "w_chunked": 50, "w_aggregator_with_user_hooks": 20}
+            "w_float32": 20, "w_chunked": 50, "w_aggregator_with_user_hooks": 20, "w_tensors_given_as_single_tensor": 20}
 
 
 def gen_agg_desc(rng, m, proxy):
@@ -94,7 +94,8 @@ def gen_case(rng, i, smooth=False):
     return {"program": desc, "req": req, "container": ["list", "tuple", "set", "gen", "dictkeys"][int(rng.integers(5))],
             "order2": order2, "container2": ["list", "tuple", "set", "gen"][int(rng.integers(4))],
             "chunk": chunk, "agg": agg_desc, "proxy": proxy, "pregrad": pre,
-            "pseed": int(rng.integers(1 << 30)), "retain": bool(rng.random() < 0.3), "m": m}
+            "pseed": int(rng.integers(1 << 30)), "retain": bool(rng.random() < 0.3), "m": m,
+            "tensors_as": ["list", "tuple", "single_if_one"][int(rng.integers(3))]}
 
 
 def _out_shapes(desc):
@@ -114,7 +115,10 @@ def _set_pregrads(b, case):
     prng = np.random.default_rng(case["pseed"])
     for j in case["pregrad"]:
         leaf = b.leaves[j]
-        leaf.grad = torch.tensor(prng.standard_normal(tuple(leaf.shape)), dtype=torch.float64).to(leaf.dtype)
+        g = torch.tensor(prng.standard_normal(tuple(leaf.shape)), dtype=torch.float64).to(leaf.dtype)
+        if g.ndim >= 2 and prng.random() < 0.4:
+            g = g.transpose(0, -1).contiguous().transpose(0, -1)  # a pre-existing .grad of arbitrary memory layout
+        leaf.grad = g
 
 
 def _one_run(case, order, cont, ctx, use_proxy, label):
@@ -144,8 +148,14 @@ def _one_run(case, order, cont, ctx, use_proxy, label):
     before = aj.snap(b.leaves)
     values_before = [t.detach().clone() for t in b.all_tensors()]
     inputs = None if order is None else aj.container(cont, [b.leaves[j] for j in order])
+    tensors = b.outputs
+    if case.get("tensors_as") == "tuple":
+        tensors = tuple(b.outputs)
+    elif case.get("tensors_as") == "single_if_one" and len(b.outputs) == 1:
+        tensors = b.outputs[0]  # `tensors: Sequence[Tensor] | Tensor`
+        ctx.count("w_tensors_given_as_single_tensor")
     try:
-        backward(b.outputs, agg, inputs=inputs, retain_graph=case["retain"], parallel_chunk_size=case["chunk"])
+        backward(tensors, agg, inputs=inputs, retain_graph=case["retain"], parallel_chunk_size=case["chunk"])
     except Exception as e:
         # is the aggregator itself unable to handle the true Jacobian?  then C11's business, not judged here
         try:
